@@ -135,6 +135,12 @@ Fixpoint to_js (fm : bool) (en : env) (e : expr) {struct e} : js :=
     | TDateTime => JCall "_system.date" [JLit ("'" ++ name ++ "'")]
     | TSystem => JMember (assoc_or name SYSTEM_PROPERTIES) name     (* _movie.stageColor, ... *)
     end
+  | ETheN n =>
+    match assoc_str (nm en n) ASSIGN_KNOWN_PROPERTIES with
+    | Some o => JMember o (nm en n)
+    | None => js_prop fm (nm en n)
+    end
+  | EAcc _ _ => JLit ""       (* the <name> of <x>: outside the JavaScript theorems (js_ok); x.name would need the receiver rules *)
   end.
 
 (* side conditions: locals are plain local-variable nodes; call names have no translation of their own *)
@@ -152,6 +158,7 @@ Fixpoint js_ok (en : env) (e : expr) {struct e} : Prop :=
   (* a chunk of a number or of a signed value would need parentheses the generator does not write (5.word.length) *)
   | EObj f _ x => js_ok en x /\ match f with FLast | FNumber => needs_paren en x = false | _ => True end
   | EMenu _ it mn => js_ok en it /\ js_ok en mn
+  | EAcc _ _ => False
   | _ => True
   end.
 (* every system property is attached to a runtime object other than me / tell_obj / _global (the regenerated table) *)
@@ -212,6 +219,12 @@ Fixpoint name_e (fm : bool) (en : env) (e : expr) {struct e} : nexpr :=
     | TDateTime => NCall "_system.date" [NLit ("'" ++ name ++ "'")]
     | TSystem => if String.eqb (assoc_or name SYSTEM_PROPERTIES) "_global" then NGlob name else NProp (assoc_or name SYSTEM_PROPERTIES) name
     end
+  | ETheN n =>
+    match assoc_str (nm en n) ASSIGN_KNOWN_PROPERTIES with
+    | Some o => if String.eqb o "_global" then NGlob (nm en n) else NProp o (nm en n)
+    | None => NProp (match assoc_str (nm en n) VARIABLE_KNOWN_PROPERTIES with Some o => o | None => if fm then "this" else "me" end) (nm en n)
+    end
+  | EAcc _ _ => NLit ""
   end.
 
 Definition all_binops : list binop :=
